@@ -285,7 +285,7 @@ end
 
 /-- `json.loads(text)`: one value, nothing but whitespace around it -/
 def parse (cs : List Char) : Option JVal :=
-  match parseVal (cs.length + 1) (skipWs cs) with
+  match parseVal (2 * cs.length + 1) (skipWs cs) with
   | some (v, r) => if skipWs r = [] then some v else none
   | none => none
 
